@@ -472,6 +472,26 @@ def h18_cross_operand_store(ctx, tk, rule, funcs):
                              "wide integers wrap where numpy's own function promotes" % (ast.unparse(n.ast), ", ".join(extra), ", ".join(pb), a), node=n.ast, engine="KB")
 
 
+def h19_raw_identity_store(ctx, tk, rule, funcs):
+    """`ufunc.identity` is a Python scalar (-1 for bitwise_and, True for logical_and, 0, 1): written into an array of
+    the data's dtype it must be converted first - numpy refuses an out-of-range Python integer on assignment
+    (-1 into any unsigned array raises OverflowError), and np.full with it yields int64 whatever the data type"""
+    for f in funcs:
+        fa = ctx.fa(f)
+        for n in fa.cfg.stmts():
+            if not (n.kind == "stmt" and isinstance(n.ast, ast.Assign) and len(n.ast.targets) == 1 and isinstance(n.ast.targets[0], ast.Subscript)):
+                continue
+            v = fa.term(n.ast.value, n)
+            raw = [a for a in alts(v) if a.k == "attr" and a.a[1] == "identity"]
+            if raw:
+                ctx.violated(rule, f, "a ufunc's identity is converted to the result's dtype before it is stored",
+                             "`%s` stores the Python scalar %s: for bitwise_and it is -1, which numpy refuses to store into an unsigned array "
+                             "(OverflowError), so reducing unsigned rows with an empty row fails instead of giving the all-ones identity" % (ast.unparse(n.ast), raw[0]),
+                             node=n.ast, engine="KB")
+            elif any(x.k == "attr" and x.a[1] == "identity" for x in walk(v)):
+                ctx.holds(rule, f, "a ufunc's identity is converted to the result's dtype before it is stored", node=n.ast, engine="KB")
+
+
 def generic(ctx, tk, rule, funcs, skip=()):
     """all deviance-form hazard rules over a property's function scope"""
     fs = [f for f in funcs if f.qual not in skip]
@@ -493,3 +513,5 @@ def generic(ctx, tk, rule, funcs, skip=()):
     h16_initial_in_extremum(ctx, tk, rule + "/H16", fs)
     h17_tolerance_as_equality(ctx, tk, rule + "/H17", fs)
     h18_cross_operand_store(ctx, tk, rule + "/H18", fs)
+    # H19 (raw ufunc identity stored) depends on which ufunc the caller chose: it is applied by C05 only, where the
+    # property quantifies over "any ufunc that has an identity"
